@@ -214,6 +214,31 @@ pub fn run(ctx: &mut Ctx) {
                 Err(p) => ctx.violation(&format!("encrypted-as-subject/panic/{}", p.signature()), &format!("{:?}", p), jhex(&outer)),
             }
         }
+        // digest-equal forms back to back: the full envelope, then copies with parts obscured (same
+        // digests, other structure) - each must come back identical to what went in
+        {
+            let mut forms: Vec<Envelope> = vec![e.clone()];
+            for _ in 0..2 {
+                forms.push(gen::obscure_random(&e, &mut rng, 2, &key));
+            }
+            forms.push(e.clone());
+            for (i, f) in forms.iter().enumerate() {
+                if f.is_subject_encrypted() || f.is_subject_elided() {
+                    continue;
+                }
+                ctx.eval();
+                ctx.count("roundtrip_digest_equal_forms");
+                match trap::guard(|| f.encrypt_subject(&key).and_then(|x| x.decrypt_subject(&key))) {
+                    Ok(Ok(d)) => {
+                        if !d.is_identical_to(f) || env_bytes(&d) != env_bytes(f) {
+                            ctx.violation("roundtrip-after-other-form/not-identical", &format!("form #{} of the same digest did not come back identical right after another form was encrypted", i), J::obj(vec![("form", jhex(f)), ("came_back", jhex(&d))]));
+                        }
+                    }
+                    Ok(Err(err)) => ctx.violation("roundtrip-after-other-form/err", &format!("{}", err), jhex(f)),
+                    Err(p) => ctx.violation(&format!("roundtrip-after-other-form/panic/{}", p.signature()), &format!("{:?}", p), jhex(f)),
+                }
+            }
+        }
         // second encryption refused
         ctx.eval();
         ctx.count("double_encrypt");
@@ -247,6 +272,30 @@ pub fn run(ctx: &mut Ctx) {
         if gen::root_digest(&y) != t.digest {
             let forged_bare = key.encrypt_with_digest(env_bytes(&y), &z_digest, None::<Nonce>);
             expect_reject(ctx, Envelope::try_from(forged_bare).map_err(|e| e.to_string()), &key, "misdeclared-content-bare", &enc, || "bare forged message".into());
+        }
+        // near-miss declarations by a key holder: the real content under a digest that differs from the
+        // real one in exactly one bit (every bit of the last byte, the first byte, and sampled others)
+        {
+            let real = env_bytes(&e.subject());
+            let mut bits: Vec<usize> = (248..256).chain(0..8).collect();
+            for _ in 0..16 {
+                bits.push(rng.below(256));
+            }
+            if case % 8 == 0 {
+                bits = (0..256).collect();
+                ctx.count("near_miss_all_256_bits");
+            }
+            for b in bits {
+                let mut d = *subj_digest.data();
+                d[b / 8] ^= 1 << (b % 8);
+                let near = Digest::from_data(d);
+                let forged = key.encrypt_with_digest(real.clone(), &near, None::<Nonce>);
+                // bare, and as the subject of a node (where only the subject-level comparison can notice,
+                // because the node digest is then computed from the declared digest)
+                expect_reject(ctx, Envelope::try_from(forged.clone()).map_err(|e| e.to_string()), &key, "near-miss-digest-bare", &enc, || format!("declared digest differs from the content's digest in bit {}", b));
+                let as_subject = Envelope::try_from(forged).map(|s| s.add_assertion("k", 1)).map_err(|e| e.to_string());
+                expect_reject(ctx, as_subject, &key, "near-miss-digest-subject", &enc, || format!("declared digest differs in bit {} (as node subject)", b));
+            }
         }
         // content that is not an envelope at all
         let junk = key.encrypt_with_digest(dcbor::CBOR::from("not an envelope").to_cbor_data(), &subj_digest, None::<Nonce>);
